@@ -213,6 +213,7 @@ func Discharge(obls []*Obligation, counts map[*Obligation][]*countDef, cfg RunCo
 	type job struct {
 		o       *Obligation
 		scripts []string // increasingly complete hypothesis sets; the last one is the full query
+		vacuity bool
 	}
 	// scripts are generated sequentially (term tables are not thread-safe)
 	jobs := make([]job, 0, len(obls))
@@ -246,6 +247,19 @@ func Discharge(obls []*Obligation, counts map[*Obligation][]*countDef, cfg RunCo
 			}
 		}
 		j := job{o: o}
+		if o.Kind == "vacuity" {
+			// canary: only the quantifier-free part, short budget; "unsat" here means a contradictory precondition
+			var qf []*Term
+			for _, h := range hyps {
+				if !hasQuantifier([]*Term{h}) {
+					qf = append(qf, h)
+				}
+			}
+			j.scripts = []string{Script(qf, o.Goal, nil)}
+			j.vacuity = true
+			jobs = append(jobs, j)
+			continue
+		}
 		if !o.QF {
 			// stage 1: quantifier-free hypotheses connected to the goal; stage 2: connected hypotheses
 			j.scripts = append(j.scripts, Script(relevant(hyps, o.Goal, 4, true), o.Goal, nil))
@@ -275,6 +289,9 @@ func Discharge(obls []*Obligation, counts map[*Obligation][]*countDef, cfg RunCo
 					ms := cfg.TimeoutMs
 					if !last {
 						ms = min(ms, 3000)
+					}
+					if j.vacuity {
+						ms = 1500
 					}
 					r := Solve(sc, ms, cfg.All && last)
 					total += r.Ms
